@@ -203,6 +203,23 @@ fn main() {
                     }
                 }
             }
+            "dibuild" => {
+                // dibuild o:<f64> h:<f64> ... : setter calls in the given order (repeats allowed), then build()
+                let r = catch_unwind(AssertUnwindSafe(|| {
+                    let mut b = DataItem::builder();
+                    for tok in &w[1..] {
+                        let (k, v) = tok.split_at(2);
+                        let x = pf(v);
+                        b = match k { "o:" => b.open(x), "h:" => b.high(x), "l:" => b.low(x), "c:" => b.close(x), "v:" => b.volume(x), _ => panic!("bad setter") };
+                    }
+                    b.build()
+                }));
+                match r {
+                    Ok(Ok(d)) => { let c = d.clone(); format!("{} {}", fmt_out(&[d.open(), d.high(), d.low(), d.close(), d.volume()]), if c == d { "cloneeq" } else { "clonene" }) }
+                    Ok(Err(e)) => format!("err {:?}", e),
+                    Err(_) => "panic".into(),
+                }
+            }
             "reset" => {
                 let s = slots.get_mut(w[1]).expect("slot");
                 match catch_unwind(AssertUnwindSafe(|| s.reset())) { Ok(_) => "ok".into(), Err(_) => "panic".into() }
